@@ -6,8 +6,8 @@ struct CacheIface{
   virtual bool insert(int v)=0;   // v != 0
   virtual int get()=0;            // 0 = nothing
 };
-CacheIface* make_shared_cache(int capacity);  // SQUIDS_THREAD_LOCAL undefined, std::atomic -> sim_atomic
-CacheIface* make_tls_cache(int capacity);     // SQUIDS_THREAD_LOCAL=thread_local (single-thread variant)
+CacheIface* make_shared_cache(int capacity,bool raw_payload);  // SQUIDS_THREAD_LOCAL undefined, std::atomic -> sim_atomic
+CacheIface* make_tls_cache(int capacity,bool raw_payload);     // SQUIDS_THREAD_LOCAL=thread_local (single-thread variant)
 // per-thread counters of simulated atomic operations (shared variant)
 long cachesim_cas_count();
 void cachesim_cas_reset();
